@@ -1,22 +1,24 @@
 (** C02 — setState / comparePopScore are atomic. Theorems about the closed, instantiated machine
     (Pop/SmDefs.v: as-coded model; concrete reference-count protecting state). Each is [exact] of a lemma of
-    Pop/SmProofs.v.
+    Pop/SmProofs.v / Pop/SmWf.v.
 
-    FULL statements aimed at (kept visible; the parts not proved are named):
-      setState_atomic : setState s to = Ok (s', true)  -> tip s' = to /\ applied blocks of s' = root..to /\ to fully valid
-                        setState s to = Ok (s', false) -> pst s' = pst s /\ applied set unchanged /\ marks changed only on
-                        the target branch (FAILED_POP on the first failing block, FAILED_CHILD below it, raised levels)
-      compare_atomic  : result >= 0 -> tip and P unchanged modulo candidate-branch marks; < 0 -> candidate is tip,
-                        exactly root..candidate applied;   never Abort from reachable states.
-    PROVED for all trees / payloads / failing positions / histories: group and block atomicity (exact), exact inverse of
-    apply/unapply, and for setState / compare: P is always exactly the effects of the blocks flagged applied (nothing
-    leaks, whatever fails where), true => target is tip, fully valid, counter = chain length; false => tip unchanged,
-    counter = chain length, target invalid.
-    GAP (hence _partial): that the set of blocks flagged applied is root..tip after the call (the walk over parent
-    pointers) and Abort-freedom; both are covered by the correspondence run (flags, counter and P compared after
-    every call) and the direct oracle. *)
+    PROVED, for all trees / payload assignments / failing positions (n,k):
+      * CommandGroup::execute and applyBlock are atomic (exact equality of P), unExecute / unapplyBlock are exact inverses;
+      * C02_setState_atomic: from every state reachable by connectBlock / setState histories ([quiet]: tree well formed,
+        tip applied, counter = length of root..tip) setState returns to such a state; on success the target is the tip and
+        EXACTLY the blocks root..target are flagged applied; on failure tip, counter and the applied flags of ALL blocks
+        are exactly what they were (C02_setState_failure_unchanged: and P is unchanged as a multiset);
+      * after setState / comparePopScore with ANY outcome, from any reachable state, P is exactly the bootstrap state plus
+        the effects of the blocks flagged applied (nothing leaks).
+    GAPS (hence the two _partial theorems, full statements kept here):
+      setState_atomic also claims: marks change only on the target branch (proved for applyBlock, not lifted to the walk)
+        and no assert (Abort) is reachable;
+      compare_atomic : result >= 0 -> tip, P, applied set unchanged modulo candidate-branch marks; < 0 -> candidate is
+        tip, exactly root..candidate applied. Proved for compare: P canonical (C02_compare_atomic_partial); not proved:
+        that the applied flags are root..tip afterwards (the quiet invariant through the apply-both / unapplyWhile /
+        re-apply dance). Covered by the direct oracle and the correspondence run. *)
 From Coq Require Import List ZArith NArith Bool Permutation.
-From VB Require Import Pop.SmDefs Pop.SmProofs.
+From VB Require Import Pop.SmDefs Pop.SmProofs Pop.SmWf.
 
 Theorem C02_group_exec_atomic :
   forall g p p', group_execute pstate ccmd cexec cunexec g p = (p', false) -> p' = p.
@@ -57,3 +59,25 @@ Theorem C02_compare_atomic_partial :
     canon base s -> c_compare score crossed s c = Ok (s', r) -> canon base s'.
 Proof. exact canon_compare. Qed.
 Print Assumptions C02_compare_atomic_partial.
+
+Theorem C02_quiet_reachable :
+  forall base r h ops s, no_compare ops -> run (c_init r h base) ops = Ok s ->
+    quiet s /\ forall j, is_act (cores s) j <-> In j (chain s).
+Proof. exact applied_exactly_run. Qed.
+Print Assumptions C02_quiet_reachable.
+
+Theorem C02_setState_atomic :
+  forall s to s' ok, quiet s -> c_setState s to = Ok (s', ok) ->
+    quiet s' /\
+    (forall j, is_act (cores s') j <-> In j (chain s')) /\
+    (ok = true -> tip _ _ s' = to) /\
+    (ok = false -> tip _ _ s' = tip _ _ s /\ napp _ _ s' = napp _ _ s /\
+                   forall j, is_act (cores s') j <-> is_act (cores s) j).
+Proof. exact setState_applied_exactly. Qed.
+Print Assumptions C02_setState_atomic.
+
+Theorem C02_setState_failure_unchanged :
+  forall base s to s', quiet s -> canon base s -> c_setState s to = Ok (s', false) ->
+    cores s' = cores s /\ Permutation (pst _ _ s') (pst _ _ s).
+Proof. exact setState_failure_P_unchanged. Qed.
+Print Assumptions C02_setState_failure_unchanged.
